@@ -198,6 +198,7 @@ func (c *Ctx) chainResetFamily() {
 	for _, in := range Instrs(c.F(wl), p.PlainCalls("litefs.removeFilesExcept")) {
 		c.Expect("chain-reset/forward/excepted", c.argR(in, 2), pat("path/filepath.Split((litefs.(*DB).LTXPath(p0, "+h2+".MinTXID, "+h2+".MaxTXID) + \".tmp\"))#1"), "the file kept is the temp file about to be renamed", "excepting the final name would delete the temp file")
 	}
+	c.verifyBeforeDestroy("chain-reset/forward")
 	c.BeforeG("chain-reset/replica", pl, p.PlainCalls("litefs.(*DB).ApplyLTXNoLock"), p.PlainCalls("litefs.removeFilesExcept"), gs(GP(isSnap, false)), 1, "a snapshot removes the other LTX files before it is applied (processLTXStreamFrame)", "Open recovers to the highest TXID on disk")
 	for _, in := range Instrs(c.F(pl), p.PlainCalls("litefs.removeFilesExcept")) {
 		c.Expect("chain-reset/replica/excepted", c.argR(in, 2), pat("path/filepath.Split(litefs.(*DB).LTXPath("+db+", "+hdr+".MinTXID, "+hdr+".MaxTXID))#1"), "the file kept is the published snapshot", "")
@@ -208,4 +209,18 @@ func (c *Ctx) chainResetFamily() {
 		GP("(litefs.OS.ReadDir(p0, @@)#1 == nil)", true), G(`\(.* < builtin\.len\(.*\)\)`, true),
 		GP("os.DirEntry.IsDir(@@)", false), GP("(os.DirEntry.Name(@@) == p2)", false), G(`\(nil == .*\)`, true), G(`\(nil == .*\)`, false),
 	}, 1, "every other regular file of the directory is removed", "a stale file of the abandoned history left behind breaks the single chain")
+}
+
+// verifyBeforeDestroy: WriteLTXFileAt (the body of POST /tx and of a backup
+// restore) removes the other LTX files of the database only after the incoming
+// file was completely written, synced and verified.
+func (c *Ctx) verifyBeforeDestroy(prefix string) {
+	p := c.P
+	wl := "litefs.(*DB).WriteLTXFileAt"
+	rm := p.PlainCalls("litefs.removeFilesExcept")
+	c.Guarded(prefix+"/destroy-after-verify", wl, rm, gs(GP("(ltx.(*Decoder).Verify(@@) == nil)", true)), 1,
+		"the existing LTX files are removed only after the incoming snapshot passed ltx verification", "a truncated or corrupt body with a snapshot header must be rejected without touching the transaction log")
+	c.Before(prefix+"/destroy-after-copy", wl, rm, p.PlainCalls("io.Copy"), 1, "... and only after the body was copied completely", "")
+	c.Guarded(prefix+"/destroy-after-sync", wl, rm, gs(G(`\(nil == os\.\(\*File\)\.Sync\(.*\)\)|\(os\.\(\*File\)\.Sync\(.*\) == nil\)`, true)), 1, "... and synced", "")
+	c.Guarded(prefix+"/destroy-snapshot-only", wl, rm, gs(GP("ltx.(*Header).IsSnapshot(@@)", true)), 1, "only a snapshot (MinTXID 1) replaces the chain", "")
 }
